@@ -228,6 +228,8 @@ class LogSpace(Structured):
         if isinstance(e, (ast.Name, ast.Attribute, ast.Subscript)):
             if isinstance(e, ast.Name) and e.id in self.scalar_names:
                 return Form({(1, ('num',))})
+            if isinstance(e, ast.Attribute) and e.attr == 'values' and self.place(e) not in env:
+                return self.form(e.value, env, stmt)        # the array of a factor carries the factor's form
             return self.lookup(e, env)
         if isinstance(e, ast.UnaryOp):
             f = self.form(e.operand, env, stmt)
@@ -339,6 +341,9 @@ class LogSpace(Structured):
             return self.form(f.value, env, stmt)
         if isinstance(f, ast.Name) and f.id in ('float', 'tuple', 'list') and len(e.args) == 1:
             return argforms[0]
+        if ((isinstance(f, ast.Name) and f.id == 'Factor') or (isinstance(f, ast.Attribute) and f.attr == 'Factor')) and len(e.args) == 2 \
+                and not e.keywords:
+            return argforms[1]                              # Factor(domain, values): the factor carries the form of its array
         if meth is not None:
             self.form(f.value, env, stmt)
         # a module-level helper of the same module: analyse its body with the parameters bound to the argument forms
